@@ -437,6 +437,24 @@ pub fn gen_cfg(rng: &mut Rng, count: u64, _tier: &str) -> Vec<String> {
                 out.push(line("ccfg", &v(&[down, up, "-b", "1024", down, "f.bin"])));
             }
         }
+        // a relative directory is relative to the working directory, wherever -d points (here: <base>/d has a sub-directory e,
+        // the working directory has none)
+        {
+            let with_e = std::path::Path::new(&dirs[3]).parent().unwrap().to_str().unwrap().to_string();
+            for flag in ["-rd", "-sd", "--receive-directory", "--send-directory"] {
+                out.push(line("cfg", &v(&["tftpd", "-d", &with_e, flag, "e"])));
+                out.push(line("cfg", &v(&["tftpd", flag, "e", "-d", &with_e])));
+                out.push(line("cfg", &v(&["tftpd", "-d", &with_e, flag, "e", "-d", &dirs[0]])));
+            }
+            out.push(line("ccfg", &v(&["f.bin", "-rd", "e"])));
+        }
+        // 16-bit settings: nothing beyond 65535, however it is written
+        for big in ["65536", "65605", "101345", "4294967296", "18446744073709551615", "+65536", "0065536"] {
+            out.push(line("cfg", &v(&["tftpd", "-p", big])));
+            out.push(line("ccfg", &v(&["f.bin", "-p", big])));
+            out.push(line("ccfg", &v(&["f.bin", "-w", big])));
+            out.push(line("ccfg", &v(&["-p", "1234", "f.bin", "-p", big])));
+        }
         // an address in socket-address syntax is no address
         for ip in ["10.0.0.1:6969", "[::1]:6969", "127.0.0.1:69", "[::1]"] {
             out.push(line("cfg", &v(&["tftpd", "-i", ip])));
